@@ -112,7 +112,9 @@ impl ReProgram {
                 let mut fp = fixed_position;
                 let mut mp = min_position;
                 for o in &sequence.operations {
-                    if matches!(o, Operation::Bol(_)) {
+                    // "^" fixes the position to the start of the input only
+                    // when it cannot also match after a newline
+                    if matches!(o, Operation::Bol(_)) && !self.flags.is_multi_line() {
                         fp = Some(0);
                     }
                     self.add_precondition(o.clone(), fp, mp);
